@@ -240,6 +240,9 @@ def run_property(prop, tier, specs, level, title, assumptions, functions_hint=()
         infeasible_prefixes_pruned=tot['aborted'],
         solver_queries=tot['queries'],
         obligations_discharged=tot['prove'] + (pre_info or {}).get('discharged', 0),
+        monitor_evaluations=tot['paths'],
+        obligations_note='obligations_discharged = solver-discharged term obligations (payload/term equalities, timing formulas); the structural rules of each '
+                         'oracle/monitor are evaluated once per explored path (monitor_evaluations), their truth being fixed by the z3-decided path condition',
         solver_seconds=round(tot['solver'], 2),
         path_classes=dict(sorted(classes.items())),
         explorations=per_spec,
